@@ -21,11 +21,8 @@ Record c03_hyps (o : oracles) (flags : N) (sv : sigversion) (script : bytes) (st
   h_wpubkey : sv = SV_BASE -> flag_set flags VERIFY_WITNESS_PUBKEYTYPE = false;
   (* (H2) strict region, or an oracle that rejects what pycoin's lax DER reader rejects *)
   h_strict : strict flags = true \/ lax_contract o sv;
-  (* under SV_BASE (signatures are deleted from the script code):
-     - the script decodes to its end (otherwise both sides fail sooner or later, but pycoin's deletion walk and
-       FindAndDelete differ behind the undecodable instruction: C04's finding undecodable-script-code);
-     - no blob of 2^32 bytes or more can reach _delete_signature (OverflowError there, nothing in Core) *)
-  h_decodable : sv = SV_BASE -> script_decodable script = true;
+  (* under SV_BASE (signature blobs are deleted from the script code) no blob of 2^32 bytes or more may reach
+     _delete_signature: OverflowError there, nothing in Core *)
   h_hash : sv = SV_BASE -> hash_ok o;
   h_stack : sv = SV_BASE -> Forall item_ok st /\ N.of_nat (length st) < 2 ^ 32
 }.
@@ -33,14 +30,13 @@ Record c03_hyps (o : oracles) (flags : N) (sv : sigversion) (script : bytes) (st
 Theorem eval_agree_all o flags sv ctx script st : c03_hyps o flags sv script st ->
   res_agree stack_eqb (VMpy.eval_script o flags sv ctx script st) (VMcore.EvalScript o flags sv ctx script st) = true.
 Proof.
-  intros [H1 H1w H2 Hdec Hhash Hst].
+  intros [H1 H1w H2 Hhash Hst].
   apply (eval_agree o flags sv ctx script (fun _ => true)
-           (fun stk alt tail => sv = SV_BASE -> items_ok stk alt /\ exists l, dec tail l)
-           (fun rest => sv = SV_BASE -> exists l, dec rest l)).
+           (fun stk alt _ => sv = SV_BASE -> items_ok stk alt) (fun _ => True)).
   - intros op _ Hhi Hdis s vf rest R Hr Hopc HI.
     destruct (is_sig_op op) eqn:Hsig; [|apply exec_agree_basic; assumption].
     assert (HI' : Inv_sig sv (st_stack s) (st_alt s) (skipn (st_bch s) script)).
-    { intros Eb. destruct (HI Eb) as ((A & B & C) & l & Hd). repeat split; auto. exact (fad_ok_dec _ l Hd). }
+    { intros Eb. destruct (HI Eb) as (A & B & C). repeat split; auto. apply fad_ok_all. }
     destruct op; try discriminate Hsig.
     + apply (hres_of_nf script s vf _ _ R).
       apply (agree_checksig o flags sv ctx script H1w H2 false). exact HI'.
@@ -48,16 +44,12 @@ Proof.
       apply (agree_checksig o flags sv ctx script H1w H2 true). exact HI'.
     + apply (agree_cms o flags sv ctx script H1w H2 false); assumption.
     + apply (agree_cms o flags sv ctx script H1w H2 true); assumption.
-  - intros rest op data rest' HD Hg Eb. destruct (HD Eb) as [l Hd].
-    destruct (dec_step _ _ _ _ _ Hd Hg) as (i & l' & _ & _ & _ & Hd'). eauto.
-  - intros op data rest c c' HI HD Hs Eb. destruct (HI Eb) as [Hit [l Hd]]. split.
-    + apply (step_inv o flags sv ctx (Hhash Eb) op data rest c c' Hs Hit).
-    + destruct (step_bch o flags sv ctx op data rest c c' Hs) as [-> | ->]; [eauto|exact (HD Eb)].
+  - trivial.
+  - intros op data rest c c' HI _ Hs Eb. apply (step_inv o flags sv ctx (Hhash Eb) op data rest c c' Hs). apply HI, Eb.
   - apply ops_ok_all.
-  - intros Eb. destruct (Hst Eb) as [Hf Hl]. split.
-    + unfold items_ok. rewrite rev_length. repeat split; auto. apply Forall_rev. exact Hf.
-    + apply (decb_dec (length script)); [lia|exact (Hdec Eb)].
-  - intros Eb. apply (decb_dec (length script)); [lia|exact (Hdec Eb)].
+  - intros Eb. destruct (Hst Eb) as [Hf Hl]. unfold items_ok. rewrite rev_length. repeat split; auto.
+    apply Forall_rev. exact Hf.
+  - exact I.
 Qed.
 
 (* witness v0 scripts: only (H2) is left *)
@@ -69,12 +61,9 @@ Proof. intros H2. apply eval_agree_all. constructor; try discriminate. exact H2.
 
 (* the script-code equality that replaces a FindAndDelete hypothesis *)
 Corollary script_code_agrees (tail : bytes) (sigs : list bytes) :
-  script_decodable tail = true -> Forall item_ok sigs ->
+  Forall item_ok sigs ->
   delete_signatures tail (rev sigs) = Ret (fold_left (fun c sg => find_and_delete (push_encode sg) c) sigs tail).
-Proof.
-  intros Hd Hi. destruct (decb_dec (length tail) tail (le_n _) Hd) as [l Hl].
-  exact (fad_ok_dec tail l Hl sigs Hi).
-Qed.
+Proof. intros Hi. exact (fad_ok_all tail sigs Hi). Qed.
 
 (* the hypotheses are satisfiable: DERSIG, SV_BASE, DUP HASH160 <1 byte> EQUALVERIFY CHECKSIG on a two-item stack *)
 Definition ex_oracles : oracles :=
